@@ -29,9 +29,15 @@ Definition H28 := SBytes 28 28.
 Definition H32 := SBytes 32 32.
 Definition IntS := choice [(0, U64); (1, SNint)].                  (* Int: uint / nint *)
 
-(* addresses travel as byte strings; the generator fills them with valid address bytes *)
-Definition AddressS := SBytes 29 57.
-Definition RewardAddressS := SBytes 29 29.
+(* Names for nodes whose writer image is narrower than the schema (see [writer_form] below). *)
+Definition ID_ADDRESS : N := 1.
+Definition ID_REWARD_ADDRESS : N := 2.
+Definition ID_OUTPUT_MAP : N := 3.
+Definition ID_AUX_ALONZO : N := 4.
+
+(* addresses travel as byte strings; [writer_form] restricts them to valid Shelley address bytes *)
+Definition AddressS := SNamed ID_ADDRESS (SBytes 29 57).
+Definition RewardAddressS := SNamed ID_REWARD_ADDRESS (SBytes 29 29).
 
 Definition TransactionInput := arr [H32; U32].
 Definition TransactionInputs := SSetOf TransactionInput.
@@ -54,7 +60,7 @@ Definition ProtocolVersion := arr [U32; U32].
 Definition ExUnits := arr [U64; U64].
 Definition ExUnitPrices := arr [UnitInterval; UnitInterval].
 Definition Nonce := var [(0, []); (1, [H32])].
-Definition MIRToStakeCredentials := SMapOf 0 true Credential IntS.
+Definition MIRToStakeCredentials := SMapOf 0 KBytewise Credential IntS.
 Definition MoveInstantaneousReward :=
   arr [SUint 2; choice [(0, Coin); (5, MIRToStakeCredentials)]].
 
@@ -82,19 +88,19 @@ Definition Certificates := SSetOf Certificate.
 
 (* values and assets *)
 Definition AssetNameS := SBytes 0 32.
-Definition Assets := SMapOf 1 true AssetNameS Coin.
-Definition MultiAsset := SMapOf 1 true H28 Assets.
+Definition Assets := SMapOf 1 KBytewise AssetNameS Coin.
+Definition MultiAsset := SMapOf 1 KBytewise H28 Assets.
 Definition Value := choice [(0, Coin); (4, arr [Coin; MultiAsset])].
-Definition MintAssets := SMapOf 1 true AssetNameS IntS.
-Definition Mint := SMapOf 1 false H28 MintAssets.
-Definition Withdrawals := SMapOf 0 false RewardAddressS Coin.
+Definition MintAssets := SMapOf 1 KBytewise AssetNameS IntS.
+Definition Mint := SMapOf 1 KInsertion H28 MintAssets.
+Definition Withdrawals := SMapOf 0 KInsertion RewardAddressS Coin.
 
 (* governance *)
 Definition Voter := var [(0, [H28]); (1, [H28]); (2, [H28]); (3, [H28]); (4, [H28])].
 Definition GovernanceActionId := arr [H32; U32].
 Definition VotingProcedure := arr [SUint 3; SNullable Anchor].
-Definition VotingProcedures := SMapOf 0 true Voter (SMapOf 0 true GovernanceActionId VotingProcedure).
-Definition Costmdls := SMapOf 0 true (SUint 3) (SArrOf 0 IntS).
+Definition VotingProcedures := SMapOf 0 KBytewise Voter (SMapOf 1 KBytewise GovernanceActionId VotingProcedure).
+Definition Costmdls := SMapOf 0 KBytewise (SUint 3) (SArrOf 0 IntS).
 Definition PoolVotingThresholds := arr [UnitInterval; UnitInterval; UnitInterval; UnitInterval; UnitInterval].
 Definition DRepVotingThresholds :=
   arr [UnitInterval; UnitInterval; UnitInterval; UnitInterval; UnitInterval;
@@ -107,19 +113,19 @@ Definition ProtocolParamUpdate := mapS [
   (23, Opt, U32); (24, Opt, U32); (25, Opt, PoolVotingThresholds); (26, Opt, DRepVotingThresholds);
   (27, Opt, U32); (28, Opt, U32); (29, Opt, U32); (30, Opt, Coin); (31, Opt, Coin); (32, Opt, U32);
   (33, Opt, UnitInterval)].
-Definition TreasuryWithdrawals := SMapOf 0 true RewardAddressS Coin.
+Definition TreasuryWithdrawals := SMapOf 0 KRewardAddr RewardAddressS Coin.
 Definition Constitution := arr [Anchor; SNullable H28].
 Definition GovernanceAction := var [
   (0, [SNullable GovernanceActionId; ProtocolParamUpdate; SNullable H28]);
   (1, [SNullable GovernanceActionId; ProtocolVersion]);
   (2, [TreasuryWithdrawals; SNullable H28]);
   (3, [SNullable GovernanceActionId]);
-  (4, [SNullable GovernanceActionId; Credentials; SMapOf 0 true Credential U32; UnitInterval]);
+  (4, [SNullable GovernanceActionId; Credentials; SMapOf 0 KBytewise Credential U32; UnitInterval]);
   (5, [SNullable GovernanceActionId; Constitution]);
   (6, [])].
 Definition VotingProposal := arr [Coin; RewardAddressS; GovernanceAction; Anchor].
 Definition VotingProposals := SSetOf VotingProposal.
-Definition ProposedProtocolParameterUpdates := SMapOf 0 false H28 ProtocolParamUpdate.
+Definition ProposedProtocolParameterUpdates := SMapOf 0 KInsertion H28 ProtocolParamUpdate.
 Definition Update := arr [ProposedProtocolParameterUpdates; U32].
 
 (* scripts: recursion by unrolling to a depth; the theorems quantify over every depth *)
@@ -144,12 +150,12 @@ Fixpoint PlutusData (d : nat) : schema :=
     let fields := SArrAny p in
     choice [(6, STagChoice (tag_run 121 7 fields (tag_run 1280 121 fields
                   (cl [(102, arr [U64; fields]); (2, SBBytes); (3, SBBytes)]))));
-            (5, SMapOf 0 false p p); (4, fields); (0, U64); (1, SNint); (2, SBBytes)]
+            (5, SMapOf 0 KInsertion p p); (4, fields); (0, U64); (1, SNint); (2, SBBytes)]
   end.
 Definition PlutusList (d : nat) := SArrAny (PlutusData d).
 Definition WsPlutusList (d : nat) := STag 258 (SArrAny (PlutusData d)).
 Definition RedeemerTag := SUint 6.
-Definition RedeemersMap (d : nat) := SMapOf 0 false (arr [RedeemerTag; U64]) (arr [PlutusData d; ExUnits]).
+Definition RedeemersMap (d : nat) := SMapOf 0 KInsertion (arr [RedeemerTag; U64]) (arr [PlutusData d; ExUnits]).
 Definition RedeemersArr (d : nat) := SArrOf 0 (arr [RedeemerTag; U64; PlutusData d; ExUnits]).
 Definition Redeemers (d : nat) := choice [(5, RedeemersMap d); (4, RedeemersArr d)].
 
@@ -158,15 +164,16 @@ Fixpoint Metadatum (d : nat) : schema :=
   match d with
   | O => choice [(0, U64); (1, SNint); (2, SBytes 0 64); (3, SText 64)]
   | S d' => let m := Metadatum d' in
-            choice [(5, SMapOf 0 false m m); (4, SArrOf 0 m); (0, U64); (1, SNint); (2, SBytes 0 64); (3, SText 64)]
+            choice [(5, SMapOf 0 KInsertion m m); (4, SArrOf 0 m); (0, U64); (1, SNint); (2, SBytes 0 64); (3, SText 64)]
   end.
-Definition GeneralTransactionMetadata (d : nat) := SMapOf 0 false U64 (Metadatum d).
+Definition GeneralTransactionMetadata (d : nat) := SMapOf 0 KInsertion U64 (Metadatum d).
 Definition AuxiliaryData (d : nat) := choice [
   (5, GeneralTransactionMetadata d);
   (4, arr [GeneralTransactionMetadata d; SArrOf 0 (NativeScript d)]);
-  (6, STag 259 (mapS [(0, Opt, GeneralTransactionMetadata d); (1, Opt, SArrOf 0 (NativeScript d));
-                      (2, Opt, SArrOf 0 PlutusScriptBytes); (3, Opt, SArrOf 0 PlutusScriptBytes);
-                      (4, Opt, SArrOf 0 PlutusScriptBytes)]))].
+  (6, STag 259 (SNamed ID_AUX_ALONZO
+                 (mapS [(0, Opt, GeneralTransactionMetadata d); (1, Opt, SArrOf 0 (NativeScript d));
+                        (2, Opt, SArrOf 0 PlutusScriptBytes); (3, Opt, SArrOf 1 PlutusScriptBytes);
+                        (4, Opt, SArrOf 1 PlutusScriptBytes)])))].
 
 (* outputs *)
 Definition DataOption (d : nat) := var [(0, [H32]); (1, [STag 24 (SInBytes (PlutusData d))])].
@@ -175,7 +182,7 @@ Definition ScriptRef (d : nat) :=
 Definition TransactionOutputLegacy := arr [AddressS; Value].
 Definition TransactionOutputLegacyDH := arr [AddressS; Value; H32].
 Definition TransactionOutputMap (d : nat) :=
-  mapS [(0, Req, AddressS); (1, Req, Value); (2, Opt, DataOption d); (3, Opt, ScriptRef d)].
+  SNamed ID_OUTPUT_MAP (mapS [(0, Req, AddressS); (1, Req, Value); (2, Opt, DataOption d); (3, Opt, ScriptRef d)]).
 Definition TransactionOutput (d : nat) := choice [(4, TransactionOutputLegacy); (5, TransactionOutputMap d)].
 Definition TransactionOutputs (d : nat) := SArrOf 0 (TransactionOutput d).
 
@@ -193,8 +200,8 @@ Definition BootstrapWitness := arr [H32; SBytes 64 64; H32; SBytes 0 18446744073
 Definition BootstrapWitnesses := SSetOf BootstrapWitness.
 Definition TransactionWitnessSet (d : nat) := mapS [
   (0, OptNE, Vkeywitnesses); (1, OptNE, WsNativeScripts d); (2, OptNE, BootstrapWitnesses);
-  (3, OptNE, WsPlutusScripts); (4, OptNE, WsPlutusList d); (5, OptNE, Redeemers d);
-  (6, OptNE, WsPlutusScripts); (7, OptNE, WsPlutusScripts)].
+  (3, OptNE, WsPlutusScripts); (6, OptNE, WsPlutusScripts); (7, OptNE, WsPlutusScripts);
+  (4, OptNE, WsPlutusList d); (5, OptNE, Redeemers d)].     (* the writer's order: 0 1 2 3 6 7 4 5 *)
 
 Definition Transaction (d : nat) :=
   arr [TransactionBody d; TransactionWitnessSet d; SBool; SNullable (AuxiliaryData d)].
@@ -212,7 +219,49 @@ Definition HeaderBody := HeaderBodyTPraos.
 Definition Header := arr [HeaderBody; SBytes 448 448].
 Definition HeaderPraos := arr [HeaderBodyPraos; SBytes 448 448].
 Definition Block (d : nat) := arr [Header; SArrOf 0 (TransactionBody d); SArrOf 0 (TransactionWitnessSet d);
-                                   SMapOf 0 true U32 (AuxiliaryData d); SArrOf 0 U32].
+                                   SMapOf 0 KBytewise U32 (AuxiliaryData d); SArrOf 0 U32].
+
+(* The image of the library's writers inside the schema-valid values, where a constraint spans several
+   fields or concerns byte content (used by the judge to delimit "values built through the API"):
+   - an address is valid Shelley address bytes (header nibble consistent with the length);
+   - the map form of an output is only written when it has an inline datum or a script reference;
+   - in Alonzo-format auxiliary data the Plutus V1 list (key 2) is written whenever any Plutus script list is. *)
+Definition writer_form (id : N) (v : val) : bool :=
+  if id =? ID_ADDRESS then
+    match v with
+    | VBytes (h :: t) =>
+        let k := h / 16 in
+        if k <? 4 then N.of_nat (length t) =? 56
+        else if (k =? 6) || (k =? 7) || (k =? 14) || (k =? 15) then N.of_nat (length t) =? 28
+        else false
+    | _ => false
+    end
+  else if id =? ID_REWARD_ADDRESS then
+    match v with
+    | VBytes (h :: t) => ((h / 16 =? 14) || (h / 16 =? 15)) && (N.of_nat (length t) =? 28)
+    | _ => false
+    end
+  else if id =? ID_OUTPUT_MAP then
+    match v with
+    | VStruct [_; _; d; r] =>
+        match d, r with
+        | Some (VVar (S O) _), _ => true
+        | _, Some _ => true
+        | _, _ => false
+        end
+    | _ => false
+    end
+  else if id =? ID_AUX_ALONZO then
+    match v with
+    | VStruct [_; _; p1; p2; p3] =>
+        match p1, p2, p3 with
+        | None, Some _, _ => false
+        | None, _, Some _ => false
+        | _, _, _ => true
+        end
+    | _ => false
+    end
+  else true.
 
 (* the table the round-trip theorem is instantiated on (C01); names are kept by the driver *)
 Definition ledger_schemas (d : nat) : list schema := [
